@@ -15,6 +15,8 @@ def regen_all(force=False):
     import gen_counter
     import gen_tables
     gens = [("counter", gen_counter.gen_counter), ("seq_sites", gen_counter.gen_sites), ("tables", gen_tables.gen_tables)]
+    import gen_lifecycle
+    gens.append(("lifecycle_rules", gen_lifecycle.gen_lifecycle))
     try:
         import gen_misc
         gens += gen_misc.GENERATORS
